@@ -25,6 +25,7 @@ def run(ctx):
     encoder.rule_leaf(F, R)
     encoder.rule_tree(F, R)
     encoder.rule_whole(F, R)
+    encoder.rule_literal_flags(F, R, "C01.flag")
     encoder.rule_homo(F, R)
     encoder.rule_ctx(F, R)
     rule_delegate(F, R)
